@@ -70,8 +70,9 @@ type Node struct {
 	Name string  `json:"n"`
 	Dir  bool    `json:"dir,omitempty"`
 	Ch   []*Node `json:"ch,omitempty"`
-	GP   bool    `json:"gp,omitempty"`  // declares option go_package (ground truth)
+	GP   bool    `json:"gp,omitempty"`  // declares option go_package (the generator's ground truth)
 	Reg  bool    `json:"reg,omitempty"` // Lstat mode is regular
+	Body string  `json:"-"`             // content read back from disk (regular files)
 }
 
 // Case is the JSON side of one case.
@@ -145,6 +146,14 @@ func content(kind string) string {
 		return protoHead + "option go_package=\"example.com/gen/x\";\n\n" + protoBody
 	case "gp_spaces":
 		return protoHead + "option  go_package  =  \"example.com/gen/x\";\n\n" + protoBody
+	case "gp_tab": // declares it, a tab between the words
+		return protoHead + "option\tgo_package\t= \"example.com/gen/x\";\n\n" + protoBody
+	case "gp_newline": // declares it, the statement is split over two lines
+		return protoHead + "option go_package\n    = \"example.com/gen/x\";\n\n" + protoBody
+	case "gp_blockcomment": // declares nothing: the option is inside a block comment
+		return protoHead + "/*\noption go_package = \"example.com/gen/x\";\n*/\n\n" + protoBody
+	case "gp_string": // declares nothing: the text is inside a string literal of another option
+		return protoHead + "option java_package = \"option go_package = x\";\n\n" + protoBody
 	default:
 		return "hello\n"
 	}
@@ -152,8 +161,14 @@ func content(kind string) string {
 
 // ground truth: does a file with this content declare option go_package?
 func declaresGP(kind string) bool {
-	return kind == "gp" || strings.HasPrefix(kind, "gpat_") || kind == "gp_nospace" || kind == "gp_spaces"
+	return kind == "gp" || strings.HasPrefix(kind, "gpat_") || kind == "gp_nospace" || kind == "gp_spaces" ||
+		kind == "gp_tab" || kind == "gp_newline"
 }
+
+// nearMissKinds: spellings on which the line scan of protoFileHasGoPackage and the lexical
+// structure of the file disagree (ProtoScan.v: scan_refuted_*)
+var nearMissKinds = []string{"gp_commented", "gp_msg_comment", "gp_blockcomment", "gp_string",
+	"gp_nospace", "gp_spaces", "gp_tab", "gp_newline"}
 
 // ---------------------------------------------------------------- tree on disk
 
@@ -198,7 +213,11 @@ func materialise(root string, spec *Spec, modname string) error {
 		}
 	}
 	for _, d := range need {
-		if err := os.MkdirAll(filepath.Join(root, filepath.FromSlash(d)), 0o755); err != nil {
+		p := filepath.Join(root, filepath.FromSlash(d))
+		if _, err := os.Lstat(p); err == nil {
+			continue // exists already (possibly as a file: out-of-domain stream)
+		}
+		if err := os.MkdirAll(p, 0o755); err != nil {
 			return err
 		}
 	}
@@ -224,7 +243,13 @@ func readBack(dir, rel string, gp map[string]bool) ([]*Node, error) {
 			}
 			out = append(out, &Node{Name: e.Name(), Dir: true, Ch: ch})
 		} else {
-			out = append(out, &Node{Name: e.Name(), GP: gp[r], Reg: e.Type().IsRegular()})
+			n := &Node{Name: e.Name(), GP: gp[r], Reg: e.Type().IsRegular()}
+			if n.Reg {
+				if b, err := os.ReadFile(filepath.Join(dir, e.Name())); err == nil {
+					n.Body = string(b)
+				}
+			}
+			out = append(out, n)
 		}
 	}
 	return out, nil
@@ -294,11 +319,50 @@ func gPspec(clean string) string {
 	return "PRel " + gPath(splitSegs(clean))
 }
 
+// gLine renders one line of a file (no '\n' inside); control and non-ASCII bytes become explicit
+// pieces so that the case term stays on one line and byte-exact
+func gLine(l string) string {
+	clean := true
+	for i := 0; i < len(l); i++ {
+		if l[i] < 32 || l[i] > 126 {
+			clean = false
+		}
+	}
+	if clean {
+		return gal.Str(l)
+	}
+	parts := []string{}
+	cur := []byte{}
+	for i := 0; i < len(l); i++ {
+		if l[i] < 32 || l[i] > 126 {
+			if len(cur) > 0 {
+				parts = append(parts, gal.Str(string(cur)))
+				cur = cur[:0]
+			}
+			parts = append(parts, fmt.Sprintf("(ctl_char %d)", l[i]))
+		} else {
+			cur = append(cur, l[i])
+		}
+	}
+	if len(cur) > 0 {
+		parts = append(parts, gal.Str(string(cur)))
+	}
+	return "(pieces " + gal.List(parts) + ")"
+}
+
+// gContent renders a file content: its lines joined by newline characters
+func gContent(s string) string {
+	if !strings.Contains(s, "\n") {
+		return gLine(s)
+	}
+	return "(nl_join " + gal.ListOf(strings.Split(s, "\n"), gLine) + ")"
+}
+
 func gNode(n *Node) string {
 	if n.Dir {
 		return "Dir " + gal.Str(n.Name) + " " + gal.ListOf(n.Ch, gNode)
 	}
-	return "File " + gal.Str(n.Name) + " " + gal.Bool(n.GP) + " " + gal.Bool(n.Reg)
+	return "File " + gal.Str(n.Name) + " " + gContent(n.Body) + " " + gal.Bool(n.Reg)
 }
 
 // ---------------------------------------------------------------- running one tree
@@ -326,6 +390,22 @@ func spell(root, cwdAbs string, d DirRef) (arg string, clean string, omit bool) 
 		return rel + "/", filepath.Clean(rel), false
 	case "default":
 		return "", cwdAbs, true
+	case "dslash": // a doubled separator
+		if strings.Contains(rel, "/") {
+			a := strings.Replace(rel, "/", "//", 1)
+			return a, filepath.Clean(a), false
+		}
+		return rel + "//", filepath.Clean(rel), false
+	case "dotdot": // x/../x
+		a := rel + "/../" + filepath.Base(abs)
+		if rel == "." {
+			a = "./."
+		}
+		return a, filepath.Clean(a), false
+	case "dotend":
+		return rel + "/.", filepath.Clean(rel), false
+	case "abs_trailing":
+		return abs + "/", abs, false
 	case "raw":
 		return d.Raw, filepath.Clean(d.Raw), false
 	default:
@@ -466,7 +546,7 @@ func runOne(e *env, id, root, mod, cwdAbs string, spec Spec, fs int, world *Node
 			pre := "None"
 			if inc.HasPrefix {
 				a += "=" + inc.Prefix
-				pre = "(Some " + gPath(splitSegs(inc.Prefix)) + ")"
+				pre = "(Some " + gal.Str(inc.Prefix) + ")"
 			}
 			incArgs = append(incArgs, a)
 			incTerms = append(incTerms, gal.Pair(gPspec(clean), pre))
@@ -541,12 +621,24 @@ func runOne(e *env, id, root, mod, cwdAbs string, spec Spec, fs int, world *Node
 		for i, k := range okeys {
 			oterms[i] = gal.Pair(gPath(splitSegs(k)), gal.Str(oracle[k]))
 		}
+		rawInput := inArg
+		if omit {
+			rawInput = cwdAbs // env:"PWD"
+		}
+		entries := []string{}
+		for _, a := range incArgs {
+			entries = append(entries, strings.Split(a, ",")...) // flagsfiller splits []string values at commas
+		}
+		genTerm := "{| g_InputDir := " + gal.Str(rawInput) + "; g_ProtocPath := " + gal.Str(e.stub) +
+			"; g_Recurse := " + gal.Bool(s.Recurse) + "; g_VTProto := " + gal.Bool(s.VT) + "; g_GRPC := " + gal.Bool(s.GRPC) +
+			"; g_Include := " + gal.ListOf(entries, gal.Str) + " |}"
 		term := "{| pc_cfg := {| c_root := " + gNode(world) +
 			"; c_cwd := " + gPath(splitSegs(cwdAbs)) +
 			"; c_input := " + gPspec(inClean) +
 			"; c_recurse := " + gal.Bool(s.Recurse) + "; c_vt := " + gal.Bool(s.VT) +
 			"; c_grpc := " + gal.Bool(s.GRPC) +
 			"; c_includes := " + gal.List(incTerms) + " |}" +
+			"; pc_gen := " + genTerm +
 			"; pc_oracle := " + gal.List(oterms) +
 			"; pc_runs := " + gal.Nat(cs.Runs) +
 			"; pc_stub_cwd := " + gPath(splitSegs(cs.StubCwd)) +
@@ -648,6 +740,9 @@ func (g *gen) fill(dir string, depth int, edge bool, inputName string) {
 
 var prefixes = []string{"github.com/foo/bar", "example.com/x", "p", "corp/protos/v2"}
 
+// prefixes that are not in Clean form: filepath.Join(prefix, dir) cleans them
+var oddPrefixes = []string{"example.com/x/", "a//b", "./p", "p/../q", "/abs/pre", "../up", "example.com/./v", "x/"}
+
 func genSpec(r *rand.Rand, kind string) Spec {
 	edge := kind == "edge"
 	g := &gen{r: r, budget: 3 + r.IntN(10), seen: map[string]bool{}}
@@ -667,6 +762,14 @@ func genSpec(r *rand.Rand, kind string) Spec {
 		form = "trailing"
 	case x < 56 && input == cwd:
 		form = "default"
+	case edge && x < 64:
+		form = "dslash"
+	case edge && x < 72:
+		form = "dotdot"
+	case edge && x < 78:
+		form = "dotend"
+	case edge && x < 84:
+		form = "abs_trailing"
 	}
 	spec.Input = DirRef{Path: input, Form: form}
 	inputName := filepath.Base(input)
@@ -711,20 +814,48 @@ func genSpec(r *rand.Rand, kind string) Spec {
 			d = input // the input directory again
 		}
 		f := "rel"
-		if r.IntN(100) < 40 {
+		switch y := r.IntN(100); {
+		case y < 40:
 			f = "abs"
+		case edge && y < 48:
+			f = "trailing"
+		case edge && y < 56:
+			f = "dotslash"
+		case edge && y < 62:
+			f = "dslash"
 		}
 		inc := Inc{Dir: DirRef{Path: d, Form: f}}
 		if r.IntN(2) == 0 {
 			inc.HasPrefix = true
 			inc.Prefix = prefixes[r.IntN(len(prefixes))]
-			if edge && r.IntN(6) == 0 {
-				inc.Prefix = ""
+			if edge {
+				switch y := r.IntN(12); {
+				case y < 2:
+					inc.Prefix = ""
+				case y < 6:
+					inc.Prefix = oddPrefixes[r.IntN(len(oddPrefixes))]
+				}
 			}
 		}
 		spec.Includes = append(spec.Includes, inc)
 	}
+	if edge && len(spec.Includes) > 0 && r.IntN(6) == 0 { // the same -include twice
+		spec.Includes = append(spec.Includes, spec.Includes[r.IntN(len(spec.Includes))])
+	}
 	spec.CommaJoin = len(spec.Includes) > 1 && r.IntN(3) == 0
+	if edge && r.IntN(8) == 0 { // one proto with a near-miss spelling of the option (known findings C20-scan-*)
+		k := nearMissKinds[r.IntN(len(nearMissKinds))]
+		done := false
+		for i := range g.tree {
+			if g.tree[i].Kind == "file" && strings.HasSuffix(g.tree[i].Path, ".proto") {
+				g.tree[i].Content, done = k, true
+				break
+			}
+		}
+		if !done {
+			g.tree = append(g.tree, Entry{Path: join(input, "nm.proto"), Kind: "file", Content: k})
+		}
+	}
 	spec.Tree = g.tree
 	return spec
 }
@@ -733,19 +864,10 @@ func genSpec(r *rand.Rand, kind string) Spec {
 func genOOD(r *rand.Rand, i int) Spec {
 	s := genSpec(r, "random")
 	switch i % 5 {
-	case 0: // near-miss spellings of the go_package option
-		s.Kind = "ood-nearmiss"
-		kinds := []string{"gp_commented", "gp_msg_comment", "gp_nospace", "gp_spaces"}
-		n := 0
-		for k := range s.Tree {
-			if s.Tree[k].Kind == "file" && strings.HasSuffix(s.Tree[k].Path, ".proto") {
-				s.Tree[k].Content = kinds[(i/5+n)%len(kinds)]
-				n++
-			}
-		}
-		if n == 0 {
-			s.Tree = append(s.Tree, Entry{Path: join(s.Input.Path, "nm.proto"), Kind: "file", Content: kinds[(i/5)%len(kinds)]})
-		}
+	case 0: // an -include "directory" that is a regular .proto file
+		s.Kind = "ood-file-as-dir"
+		s.Tree = append(s.Tree, Entry{Path: "incf/f.proto", Kind: "file", Content: "nogp"})
+		s.Includes = append(s.Includes, Inc{Dir: DirRef{Path: "incf/f.proto", Form: "rel"}})
 	case 1: // symbolic links named *.proto
 		s.Kind = "ood-symlink"
 		s.Tree = append(s.Tree,
@@ -759,21 +881,16 @@ func genOOD(r *rand.Rand, i int) Spec {
 		s.Kind = "ood-dashname"
 		s.Cwd, s.Input = ".", DirRef{Path: ".", Form: "rel"}
 		s.Tree = append(s.Tree, Entry{Path: "-dash.proto", Kind: "file", Content: "nogp"})
-	case 3: // unclean spelling of the input directory
-		s.Kind = "ood-spelling"
-		s.Input.Form = "raw"
-		rel, _ := filepath.Rel(filepath.Join("/r", s.Cwd), filepath.Join("/r", s.Input.Path))
-		switch r.IntN(3) {
-		case 0:
-			s.Input.Raw = rel + "/."
-		case 1:
-			s.Input.Raw = "./" + rel + "//"
-		default:
-			if s.Input.Path != "." {
-				s.Input.Raw = rel + "/../" + filepath.Base(s.Input.Path)
-			} else {
-				s.Input.Raw = rel + "/./"
-			}
+	case 3: // the input directory is a symbolic link to a directory
+		if s.Input.Path == "protos" {
+			s.Kind = "ood-symlink-input"
+			s.Tree = append(s.Tree, Entry{Path: "linked", Kind: "symlink", Target: "protos"})
+			s.Cwd, s.Input = ".", DirRef{Path: "linked", Form: "rel"}
+		} else {
+			s.Kind = "ood-symlink"
+			s.Tree = append(s.Tree,
+				Entry{Path: join(s.Input.Path, "real.proto"), Kind: "file", Content: "nogp"},
+				Entry{Path: join(s.Input.Path, "link.proto"), Kind: "symlink", Target: "real.proto"})
 		}
 	}
 	return s
@@ -831,7 +948,43 @@ func corpus() []Spec {
 		// every position of `option go_package = …;`
 		{Kind: "corpus", Cwd: ".", Input: DirRef{Path: "protos", Form: "rel"}, Tree: positions, Flagsets: coverA,
 			Includes: []Inc{{Dir: DirRef{Path: "inc", Form: "abs"}}}},
+		// prefixes that are not Clean, a duplicated -include, unclean spellings of input and include dirs
+		{Kind: "corpus", Cwd: ".", Input: DirRef{Path: "protos", Form: "dotdot"}, Tree: small, Flagsets: []int{1, 6},
+			Includes: []Inc{{Dir: DirRef{Path: "inc", Form: "trailing"}, HasPrefix: true, Prefix: "example.com/vendored/"},
+				{Dir: DirRef{Path: "third_party/lib", Form: "dslash"}, HasPrefix: true, Prefix: "a//b/./c"},
+				{Dir: DirRef{Path: "inc", Form: "trailing"}, HasPrefix: true, Prefix: "example.com/vendored/"}}},
+		{Kind: "corpus", Cwd: "protos", Input: DirRef{Path: "protos", Form: "dotend"}, Tree: small, Flagsets: []int{0, 7},
+			Includes: []Inc{{Dir: DirRef{Path: "third_party/lib", Form: "rel"}, HasPrefix: true, Prefix: "../up"},
+				{Dir: DirRef{Path: "inc", Form: "abs_trailing"}, HasPrefix: true, Prefix: "/abs/pre"}}},
+		{Kind: "corpus", Cwd: ".", Input: DirRef{Path: "protos", Form: "abs_trailing"}, Tree: small, Flagsets: []int{0, 3}},
+		{Kind: "corpus", Cwd: ".", Input: DirRef{Path: "protos", Form: "dslash"}, Tree: small, Flagsets: []int{1, 4}},
 	}
+}
+
+// nearMissCorpus: one tree per near-miss spelling of the option (gating; the failures are the
+// known findings C20-scan-says-declared / C20-scan-misses-declaration), and an input directory
+// whose name holds '=' (C20-input-dir-equals)
+func nearMissCorpus() []Spec {
+	out := []Spec{}
+	for i, k := range nearMissKinds {
+		tree := []Entry{{Path: "protos/a.proto", Kind: "file", Content: "nogp"},
+			{Path: "protos/nm.proto", Kind: "file", Content: k},
+			{Path: "inc/x/nm2.proto", Kind: "file", Content: k}}
+		s := Spec{Kind: "corpus-nearmiss", Cwd: ".", Input: DirRef{Path: "protos", Form: "rel"}, Tree: tree,
+			Flagsets: []int{i % 8}}
+		if i%2 == 0 {
+			s.Includes = []Inc{{Dir: DirRef{Path: "inc", Form: "rel"}, HasPrefix: i%4 == 0, Prefix: "example.com/p"}}
+		}
+		out = append(out, s)
+	}
+	eq := []Entry{{Path: "k=v/a.proto", Kind: "file", Content: "nogp"}, {Path: "k=v/sub/b.proto", Kind: "file", Content: "gp"}}
+	out = append(out,
+		Spec{Kind: "corpus-equals", Cwd: ".", Input: DirRef{Path: "k=v", Form: "rel"}, Tree: eq, Flagsets: []int{1}},
+		Spec{Kind: "corpus-equals", Cwd: "k=v", Input: DirRef{Path: "k=v", Form: "default"}, Tree: eq, Flagsets: []int{2}},
+		// the directory named by the part before '=' exists as well
+		Spec{Kind: "corpus-equals", Cwd: ".", Input: DirRef{Path: "k=v", Form: "rel"}, Flagsets: []int{0},
+			Tree: append([]Entry{{Path: "k/other.proto", Kind: "file", Content: "nogp"}}, eq...)})
+	return out
 }
 
 // ---------------------------------------------------------------- main
@@ -865,6 +1018,7 @@ func main() {
 	specFile := flag.String("spec", "", "jsonl of specs (mode spec)")
 	par := flag.Int("par", 16, "parallel trees")
 	osample := flag.Int("oraclesample", 1, "call the real PackageNameFromPath for every K-th tree (always in corpus/spec mode)")
+	noReal := flag.Bool("norealoracle", false, "never call the real PackageNameFromPath helper (minimisation rounds)")
 	pkgof := flag.Bool("pkgof", false, "helper mode")
 	dir := flag.String("dir", "", "helper mode: working directory")
 	flag.Parse()
@@ -888,6 +1042,8 @@ func main() {
 	switch *mode {
 	case "corpus":
 		specs = corpus()
+	case "nearmiss":
+		specs = nearMissCorpus()
 	case "random", "edge":
 		for i := 0; i < *n; i++ {
 			specs = append(specs, genSpec(r, *mode))
@@ -928,7 +1084,7 @@ func main() {
 			defer wg.Done()
 			defer func() { <-gate }()
 			fsets := specs[i].Flagsets
-			if *mode == "corpus" && *flagsets >= 8 {
+			if *mode == "corpus" && *flagsets >= 8 && specs[i].Kind == "corpus" {
 				fsets = nil
 			}
 			if len(fsets) == 0 {
@@ -941,7 +1097,7 @@ func main() {
 				}
 			}
 			id := fmt.Sprintf("%s%d", (*mode)[:1], i)
-			realOracle := *mode == "corpus" || *mode == "spec" || *osample <= 1 || i%*osample == 0
+			realOracle := !*noReal && (*mode == "corpus" || *mode == "spec" || *osample <= 1 || i%*osample == 0)
 			results[i].err = runTree(e, sem, id, specs[i], fsets, realOracle, func(t string, c Case) {
 				results[i].terms = append(results[i].terms, t)
 				results[i].cases = append(results[i].cases, c)
